@@ -12,7 +12,9 @@ CHECKS = {
     "C05": dict(
         text="Machine-checked proof (Lean 4) that the k-way merge scan of assert_no_intersection accepts exactly the pairwise-disjoint "
              "tuples of sorted duplicate-free arrays, for any number/length of arrays, always terminates and never reaches its unreachable!() arm; "
-             "tied to sylvia/src/utils.rs by a differential run of the real function against the model on exhaustive small tuples and random ones.",
+             "tied to sylvia/src/utils.rs by a differential run of the real function against the model on exhaustive small tuples and random ones. "
+             "Generator side: the published list is strictly sorted and is exactly the set of wire names (proof over the rule regenerated from source), checked against "
+             "sv::<ep>_messages() and the serialised keys of compiled generated contracts; colliding / non-colliding program twins must fail / build (cargo check).",
         design="§8 C05",
         technique="Lean 4 proof (invariant over the merge loop) + differential correspondence model vs real const fn",
         note=TB + " Modelled, not verified: konst::cmp_str/eq_str as byte-wise order/equality; const-eval panic = compile error."),
@@ -34,6 +36,39 @@ CHECKS = {
         design="§8 C13",
         technique="Lean 4 proof on a fold model tied by source-form recognition + L1 differential; determinism by repeated expansion",
         note=TB + " Determinism of the real expander is exploration only. syn's parser/printer are trusted."),
+    "C01": dict(
+        text="Machine-checked proofs: serde's wire name of a method equals the method name for every name of the property's shape (induction over the word list, "
+             "on a model of convert_case 0.8 and serde's rename rule); an enum message encodes as a single-key object whose value holds one member per argument in order; "
+             "decode(encode m) = m for every variant/field list with distinct names and canonical values; a message type accepts only its variants' wire names. "
+             "Model tied to the code by (L3) the real casing crates on every identifier up to the tier's length, (L2) real serde on compiled generated contracts: "
+             "constructor and literal serialisation, parse of the predicted text, near-miss names.",
+        design="§8 C01",
+        technique="Lean 4 proof (induction, round-trip) + differential correspondence vs real macros/serde/convert_case",
+        note=TB + " Modelled, not verified: serde derive, serde-json-wasm, convert_case (validated by the streams); argument types limited to Serde.VTy."),
+    "C02": dict(
+        text="Machine-checked proof that, for every program and canonical argument values, the document a message serialises to is routed to exactly the handler it was "
+             "generated from (part and method), each value bound to the same-named parameter, context unchanged (dispatch_exact, via the wrapper theorem of C03), also for "
+             "instantiate/migrate; error conversion table. Tied to the code by running every handler of every compiled generated contract through Msg::dispatch and the "
+             "entry points with echo handlers (Ok, own Err, sibling Err), compared with the model and with an independent expected-output oracle.",
+        design="§8 C02",
+        technique="Lean 4 proof (refinement of decode+dispatch to a single Call) + L2 differential with echo handlers",
+        note=TB + " Handler bodies are a parameter; 'exactly once' is structural in the model and observed through the echo markers."),
+    "C03": dict(
+        text="Machine-checked proofs about the model of the hand-written wrapper Deserialize: messages of every part pass through unchanged and reach their own part "
+             "(wrapper_accepts_encoded, through the sorted value pass), acceptance is sound (the chosen part publishes the key and its decoder produced the value), at most "
+             "one part accepts, unknown single key lists all supported messages, non-single-key rejected; published lists = wire names by a regenerated obligation. The full "
+             "iff is false of the code for three document classes, recorded as known findings with replays. Tie: wrapper and every part decode ~25 derived documents per "
+             "message on compiled generated contracts, model vs real and real vs the property's own oracle.",
+        design="§8 C03",
+        technique="Lean 4 proof on a model of serde derive + the wrapper's value pass, differential vs real generated types",
+        note=TB + " Known findings: duplicate member names, wide numbers in ignored members, positional nested struct."),
+    "C04": dict(
+        text="Machine-checked proof that whatever document reaches the entry point of kind k, a handler that runs is annotated with kind k (kind_separation, all programs, "
+             "all JSON, including same-named handlers in other kinds). Tie: every message of kind K1 of compiled generated contracts sent to every other entry point K2 "
+             "(20 ordered pairs), through entry_points and dispatch; names deliberately shared across kinds.",
+        design="§8 C04",
+        technique="Lean 4 proof (filter-by-kind invariant through routing) + L2 differential over all ordered kind pairs",
+        note=TB + " reply kind and multitest's Contract impl are covered under C07/C12."),
 }
 
 ALL = ["C%02d" % i for i in range(1, 21)]
@@ -50,13 +85,14 @@ def main():
             "enable": "SYLVIA_VERIF_HARNESS=/verif/harness/hook/hook_main.rs cargo test --offline -p sylvia-derive --features verif-hook --lib -- verif_hook::verif_entry --exact",
             "baseline_off_cmd": "cd /repo && cargo test --workspace --no-fail-fast --offline",
             "source_commits": ["f0dc71d"],
-            "fix_commits": ["a51e7a3", "fead2e3"],
+            "fix_commits": ["a51e7a3", "fead2e3", "dbb2669"],
             "add_only": True,
         },
         "engines": [
             {"name": "lean", "path": "lean/", "serves_properties": sorted(CHECKS), "kind_free_text": "Lean 4 model + theorems + svmodel line-protocol driver"},
-            {"name": "hook", "path": "harness/hook/", "serves_properties": ["C06", "C13"], "kind_free_text": "in-process macro expansion + source translator, compiled into sylvia-derive tests via the verif-hook feature (L1)"},
-            {"name": "rt", "path": "harness/rt/", "serves_properties": ["C05"], "kind_free_text": "Rust harness calling the real runtime library (L3)"},
+            {"name": "hook", "path": "harness/hook/", "serves_properties": ["C06", "C13", "C01", "C02", "C03", "C04", "C05"], "kind_free_text": "in-process macro expansion + source translator, compiled into sylvia-derive tests via the verif-hook feature (L1)"},
+            {"name": "rt", "path": "harness/rt/", "serves_properties": ["C05", "C01"], "kind_free_text": "Rust harness calling the real runtime library (L3)"},
+            {"name": "corpus", "path": "harness/corpus/ + vlib/corpus.py", "serves_properties": ["C01", "C02", "C03", "C04", "C05"], "kind_free_text": "generated contracts compiled against /repo/sylvia with echo handlers (L2)"},
         ],
         "checks": [],
         "not_applicable": [],
